@@ -1,12 +1,27 @@
 #!/bin/bash
 # Builds the Coq development from files on disk only (offline).  Full .vo build, no -vos.
-set -e
+# `make -k`: a file that does not compile does not stop the files of other properties from
+# being built; the exit status is non-zero iff a file needed by a check registered in
+# MANIFEST.json failed to build (each ./check re-runs the incremental make for its own targets
+# and reports a build failure of its own files as a proof failure).
 cd "$(dirname "$0")"
 export PYTHONPATH="$(pwd)"
 /venv/bin/python - <<'PY'
-import sys
+import importlib, json, os, sys
 from harness import core
-rc, log = core.build()
+rc, log = core.build(keep_going=True)
 print(log[-3000:])
-sys.exit(rc)
+man = json.load(open(os.path.join(core.VERIF, "MANIFEST.json")))
+missing = []
+for c in man["checks"]:
+    mod = importlib.import_module("harness." + c["property_id"].lower())
+    for t in core.targets_of(mod):
+        if not os.path.exists(os.path.join(core.COQ, t)):
+            missing.append(t)
+if missing:
+    print("setup: targets of registered checks that did not build:", missing)
+    sys.exit(1)
+if rc != 0:
+    print("setup: note: some files outside the registered checks did not build (see log above)")
+sys.exit(0)
 PY
